@@ -13,9 +13,10 @@
 import PyTough.Model.ListingHistory
 import PyTough.Proofs.ListingHistory
 import PyTough.Proofs.ListingFile
+import PyTough.Proofs.ListingSeriesStep
 
 namespace Props.C06
-open Py Model Model.Listing Proofs.History
+open Py Model Model.Listing Proofs.History Proofs.SeriesStep
 
 /-! ### one pass over a table returns exactly the selected cells -/
 
@@ -46,6 +47,60 @@ example : scanSel exRead exCol (sortSel [(2, ['b'], false, 0), (0, ['a'], true, 
     = .ok ([(1, .fin true 1 0), (2, .fin false 3 0), (0, .fin false 30 0)], []) := by decide
 example : sortSel [(2, ['b'], false, 0), (0, ['a'], true, 1), (2, ['a'], false, 2)]
     = [(0, ['a'], true, 1), (2, ['a'], false, 2), (2, ['b'], false, 0)] := by decide
+
+/-! ### … and these cells are the cells STEPPING shows (one table at one result time, TOUGH2-family row reader)
+
+  `L` are the lines of the table from its first results line on, at one result time.  The stepping reader (`index = i` →
+  read_tables → `read_table_TOUGH2`, model `readRowsL`) reads as k-th row line the line `rowOffset skips k` of `L` (one line per
+  earlier row plus the recorded `skiplines`), and stores `read_table_line(line)` in the row its key addresses, giving table `t'`.
+  `rowInPlace t L k r` (decidable, per file and time): the key on the k-th row line addresses row `r` and no later row line
+  of the table addresses `r` again.  `steppingCell t' r e` is `t'[r][column of e]`, negated for a reversed name. -/
+
+/-- PARTIAL (TOUGH2-family readers: TOUGH2, TOUGH2_MP, TOUGH+, TOUGHREACT, TOUGH3 — not the AUTOUGH2 row loop; explicit
+    decidable hypotheses `rowInPlace`, `data.size = rows.size`).  The value history() appends for a selected entry whose
+    line is the k-th row line equals the cell of row `r`, column `e.col`, of the table the stepping reader has built from the
+    same lines — same value, same sign rule, KeyError on both sides for an unknown column.
+    Not proved: that `row_line[r]` recorded at the first time IS `rowOffset skips k` (set-up's bookkeeping), and that
+    skip_to_table + skip_to_results_line land on `L` (`Aligned`; checked on every run by the correspondence). -/
+theorem history_cell_eq_stepping_cell_partial (t t' : Table) (L rest' : List Str)
+    (hstep : readRowsL t.keyPos t.cols.length t.numpos t.skips L t = .ok (t', rest'))
+    (hsz : t.data.size = t.rows.size) (k r : Nat) (hk : k < t.skips.length) (hin : rowInPlace t L k r = true)
+    (e : Sel) (he : e.1 = (rowOffset t.skips k : Nat)) :
+    cellOf (fun l => readTableLineTOUGH2 l t.cols.length t.numpos) (colIdx t.cols) L e = steppingCell t' r e :=
+  cellOf_eq_steppingCell t t' L rest' hstep hsz k r hk hin e he
+
+/-- PARTIAL (same restrictions).  The whole one-pass read of one table at one result time against stepping: for ANY selection
+    `ts` of row lines of the table (any number, any order, repeats, reversed names; `row e` = the table row entry `e` stands for),
+    history() returns, entry by entry in sorted order, the cells of the stepping reader's table — and raises exactly when one of
+    those cells does not exist. -/
+theorem history_table_eq_stepping_partial (t t' : Table) (line0 : Str) (rest0 rest' : List Str)
+    (hstep : readRowsL t.keyPos t.cols.length t.numpos t.skips (line0 :: rest0) t = .ok (t', rest'))
+    (hsz : t.data.size = t.rows.size) (ts : List Sel) (row : Sel → Nat)
+    (hsel : ∀ e ∈ ts, ∃ k, k < t.skips.length ∧ e.1 = (rowOffset t.skips k : Nat) ∧ rowInPlace t (line0 :: rest0) k (row e) = true) :
+    (scanSel (fun l => readTableLineTOUGH2 l t.cols.length t.numpos) (colIdx t.cols) (sortSel ts) 0 line0 rest0).map (·.1)
+      = (sortSel ts).mapM (fun e => steppingCell t' (row e) e) := by
+  have h1 := (history_table_eq_cells (fun l => readTableLineTOUGH2 l t.cols.length t.numpos) (colIdx t.cols) line0 rest0 ts
+    (by intro e he; obtain ⟨k, _, hk, _⟩ := hsel e he; rw [hk]; exact Int.natCast_nonneg _)).1
+  rw [h1]
+  apply mapM_congr_mem
+  intro e he
+  obtain ⟨k, hk, hek, hin⟩ := hsel e ((sortSel_perm ts).mem_iff.mp he)
+  exact cellOf_eq_steppingCell t t' _ rest' hstep hsz k (row e) hk hin e hek
+
+-- a table of two rows printed on lines 0 and 2 (a blank line between them: skiplines = [1, 0])
+private def exL : List Str := ["  AA 1     1 0.99013E+07 0.00000E+00-0.12409E+03\n".toList, "\n".toList,
+  "  BA 1     2 0.94153E+07 0.19209-103-0.66842E+01\n".toList]
+private def exT : Table := { mkTable [['P'], ['T'], ['X']] #[["AA 1 ".toList], ["BA 1 ".toList]] 1 false with
+  keyPos := [2], numpos := [some 12, some 24, some 36, some 49], skips := [1, 0] }
+-- stepping succeeds on it; both row lines are in place; row 1 is printed on line 2
+example : (match readRowsL exT.keyPos exT.cols.length exT.numpos exT.skips exL exT with
+    | .ok (t', r) => t'.data == #[#[.fin false 99013 2, .fin false 0 (-5), .fin true 12409 (-2)],
+                                  #[.fin false 94153 2, .fin false 19209 (-108), .fin true 66842 (-4)]] && r.isEmpty
+    | .error _ => false) = true := by decide
+example : exT.data.size = exT.rows.size ∧ rowInPlace exT exL 0 0 = true ∧ rowInPlace exT exL 1 1 = true ∧ rowOffset exT.skips 1 = 2 := by decide
+-- history() asked for X of row 1 (line 2) and then P of row 0 reads them in line order
+example : (scanSel (fun l => readTableLineTOUGH2 l 3 exT.numpos) (colIdx exT.cols) (sortSel [(2, ['X'], false, 0), (0, ['P'], false, 1)]) 0
+    (exL.headD []) exL.tail).map (·.1) = .ok [(1, .fin false 99013 2), (0, .fin true 66842 (-4))] := by decide
 
 /-! ### a connection named in reverse order yields the negated series -/
 
